@@ -2,6 +2,7 @@ package pool
 
 import (
 	"context"
+	"errors"
 	"fmt"
 	"net/url"
 	"sync"
@@ -332,6 +333,17 @@ func (p *VipnodePool) connect(ctx context.Context, nodeID string, req ConnectReq
 		}
 
 		p.mu.Lock()
+		if closer, ok := service.(interface{ Done() <-chan struct{} }); ok {
+			select {
+			case <-closer.Done():
+				// The connection went away while this request was being
+				// handled: CloseRemote may have run already, nothing would
+				// ever unregister it.
+				p.mu.Unlock()
+				return nil, errors.New("connection closed during registration")
+			default:
+			}
+		}
 		if p.remoteHosts[node.ID] != service {
 			p.remoteHosts[node.ID] = service
 			p.remoteNodeLookup[service] = append(p.remoteNodeLookup[service], node.ID)
